@@ -23,6 +23,20 @@ CANARIES = [
      "        if isinstance(p.expr, ASTNode):\n            p.expr.parentheses = True\n        return p.expr", "        return p.expr", 'C03.paren.mindsdb'),
     ('c03-right-assoc-minus', 'C03', 'mindsdb_sql/parser/parser.py',
      "        ('left', PLUS, MINUS),", "        ('right', PLUS, MINUS),", 'C03.prec.sqlite'),
+    ('c13-skip-having', 'C13', 'mindsdb_sql/planner/utils.py',
+     "        if node.having is not None:\n            node_out = query_traversal(node.having, callback, parent_query=node)\n            if node_out is not None:\n                node.having = node_out\n",
+     "", 'C13.visit.Select.having'),
+    ('c13-wrong-flag', 'C13', 'mindsdb_sql/planner/utils.py',
+     "node_out = query_traversal(node.table, callback, is_table=True, parent_query=node)\n            if node_out is not None:\n                node.table = node_out\n\n        if node.values",
+     "node_out = query_traversal(node.table, callback, parent_query=node)\n            if node_out is not None:\n                node.table = node_out\n\n        if node.values", 'C13.flags.Insert.table'),
+    ('c13-replace-wrong-slot', 'C13', 'mindsdb_sql/planner/utils.py',
+     "            if node_out is not None:\n                node.having = node_out", "            if node_out is not None:\n                node.where = node_out", 'C13.repl.Select.having'),
+    ('c13-drop-replaced-arg', 'C13', 'mindsdb_sql/planner/utils.py',
+     "            node_out = query_traversal(arg, callback, parent_query=parent_query) or arg\n            array.append(node_out)",
+     "            node_out = query_traversal(arg, callback, parent_query=parent_query)\n            array.append(arg)", 'C13.repl.'),
+    ('c13-harmless-rename', 'C13', 'mindsdb_sql/planner/utils.py',
+     "        array = []\n        for arg in node.args:\n            node_out = query_traversal(arg, callback, parent_query=parent_query) or arg\n            array.append(node_out)\n        node.args = array",
+     "        new_args = []\n        for a in node.args:\n            replaced = query_traversal(a, callback, parent_query=parent_query)\n            new_args.append(replaced or a)\n        node.args = new_args", None),
 ]
 
 
@@ -31,7 +45,7 @@ def run_one(c, tier='quick'):
     repo_root = os.environ.get('REPO_ROOT', '/repo')
     tmp = tempfile.mkdtemp(prefix='vselftest_')
     try:
-        for d in ('mindsdb_sql', 'sly'):
+        for d in ('mindsdb_sql', 'sly', 'tests'):
             shutil.copytree(os.path.join(repo_root, d), os.path.join(tmp, d), ignore=shutil.ignore_patterns('__pycache__'))
         p = os.path.join(tmp, rel)
         s = open(p).read()
